@@ -1,17 +1,19 @@
 """C08 - spread rewards and incentives reach exactly the liquidity that earned them.
 Specs: spec/CLRewards.tla (the accrual mechanism: global growth, growth-outside snapshots flipped
 on crossing, per-position inside snapshots; ghost `earned`), spec/trace/TraceCLRewards.tla
-(recorded histories: exact per-bucket accrual oracle from the curve walker, uptime / forfeit rules,
+(recorded histories: exact per-bucket accrual oracle for spread rewards from the curve walker; exact
+ideal-accrual oracle for incentives - per record emission over time, pro-rata crediting of the in-range
+liquidity, forfeit re-distribution - compared two-sidedly with derived dust; uptime / forfeit rules,
 incentive accounting)."""
-import json, os, time
+import concurrent.futures, json, os, time
 import vlib, checks.clcommon as clc
 from vlib import Infra, Violation, log
 
 MANIFEST = {
     "engine": "tlc+go-harness", "design_ref": "DESIGN.md section 4 (C08)",
-    "technique": "TLA+ mechanism model CLRewards.tla (growth-outside flipping) model-checked exhaustively with claimable = earned; recorded histories validated by TLC against an exact-rational accrual oracle built on the curve walker",
-    "text": "Design level: CLRewards.tla adds the accumulator mechanism to CL.tla; TLC proves claimable + paid = earned (sum of growth x liquidity while in range) for every interleaving of creates (before/after crossings, every tick/price relation), accruals, crossings both ways, claims, partial and full withdrawals on a bounded grid, and that closed positions were paid exactly what they earned. Code level: for every executed swap of recorded histories the exact curve walker yields fee and active liquidity per bucket; ghost E[id] accumulates fee*liq_id/liq_active; after every operation claimable + collected of every position (open or closed) must lie in [E(1-1e-12) - D - 2n - 2, E(1+1e-12) + 2n + 2] with D the accumulated truncation of per-unit growth (liq x accumulator ulp, both sides of the scaling migration) and n the touching events, and equal 0 when E = 0 (never in range). Incentives: each incentive denom is bound to one uptime per history; positions younger than it can claim/collect none of it, never-in-range positions have none, and incentive account - (claimable + forfeitable + undistributed) stays within accumulated truncation dust (this found that MsgCollectIncentives dropped forfeited incentives; fixed).",
-    "note": "Trusted: TLC, BigNum override, the curve walker (its laws are model-checked in C03), harness projection. Twins and k-multiples follow from the per-position bounds (E is proportional to liquidity); drivers create positions on shared ranges.",
+    "technique": "TLA+ mechanism model CLRewards.tla (growth-outside flipping) model-checked exhaustively with claimable = earned; recorded histories validated by TLC against exact-rational accrual oracles: spread rewards from the curve walker, incentives from per-record emission over time credited pro rata to the in-range liquidity",
+    "text": "Design level: CLRewards.tla adds the accumulator mechanism to CL.tla; TLC proves claimable + paid = earned (sum of growth x liquidity while in range) for every interleaving of creates (before/after crossings, every tick/price relation), accruals, crossings both ways, claims, partial and full withdrawals on a bounded grid, and that closed positions were paid exactly what they earned. Code level, spread rewards: for every executed swap of recorded histories the exact curve walker yields fee and active liquidity per bucket; ghost E[id] accumulates fee*liq_id/liq_active; after every operation claimable + collected of every position (open or closed) must lie in [E(1-1e-12) - D - 2n - 2, E(1+1e-12) + 2n + 2] with D the accumulated truncation of per-unit growth (liq x accumulator ulp, both sides of the scaling migration) and n the touching events, and equal 0 when E = 0 (never in range). Code level, incentives (exact ideal-accrual oracle, rationals over BigNum): between two logged events the pool is constant, so over every interval [prev.t, t] each live incentive record (denom, rate, start, ideal remainder taken from the CreateIncentive call) emits min(rate x overlap of the interval with [start, inf), remainder) if the active liquidity is >= 1 (otherwise nothing is emitted and the record keeps its remainder) and every position in range ideally accrues emitted x liq / active liquidity (ghost ia[id][denom]); a position younger than the denom's uptime that collects, is withdrawn from or added to forfeits what it ideally accrued since its last settlement, which is ideally re-distributed pro rata over the liquidity active after the operation (paid to the owner only if none is). After every operation, for every position (open or closed) and incentive denom: claimable + forfeitable + everything that ever left the position must lie in [ia - dust, ia + u]; dust is derived from the code's truncations: (liq x accumulator ulp + 1e-18) per live record at every persisted accumulator update while in range and once more for the pending update of the claimable query, 1 token per settlement and 1 for the query, and per re-distribution received liq x ulp plus the forfeiting position's own dust x liq/L'; u is 1e-18 per record and update (truncated rate x elapsed defers emission). ia = 0 => exactly nothing; positions with the same range and join time whose ideal accruals are proportional to liquidity have proportional real ones (identical to the unit for equal liquidity before any settlement); a settlement pays the owner exactly what was claimable, unmatured amounts only when no other liquidity is active; incentive account = deposited - paid and claimable + forfeitable + paid + undistributed <= deposited. Each incentive denom is bound to one uptime per history; positions younger than it can claim/collect none of it, never-in-range positions have none, and incentive account - (claimable + forfeitable + undistributed) stays within accumulated truncation dust (this found that MsgCollectIncentives dropped forfeited incentives; fixed). The histories are validated with the emission rule of the property (TraceCLRewards.cfg, StartClip = TRUE); if a requirement of the incentive oracle is rejected, everything is validated again with the one rule the code is known to deviate by (TraceCLRewardsKnown.cfg; finding 'incentive:emits-for-time-before-start': the first accumulator update after a record's start time emits for the whole time since the previous update, never for time before the record was created): whatever is rejected under that rule too is a violation, otherwise the known deviation is reported as that finding. Non-vacuity: the run is undecided unless the histories contain incentives created after time passed without a liquidity update followed by a joiner, future starts, several records per denom with different starts, exhausted records, intervals without active liquidity, sub-second intervals, young positions forfeiting by collect / withdraw / add with and without other active liquidity, accruing twins and k-multiples.",
+    "note": "Trusted: TLC, BigNum override, the curve walker (its laws are model-checked in C03), harness projection. Calibration of the incentive dust on the unchanged tree (seeds 1-5 quick, one thorough run): real never exceeded ideal; worst slack/dust 1.0 where whole-token truncation dominates (999 of 1000 paid), 0.73 where the accumulator ulp dominates.",
 }
 BUILD = clc.BUILD
 
@@ -32,6 +34,128 @@ INVARIANTS ExactlyEarned ClosedPaid NonNegative InvLiq InvTicks
 CHECK_DEADLOCK FALSE
 """
 
+SIG_START = "incentive:emits-for-time-before-start"
+WHAT_START = ("an incentive record whose start time lies between two accumulator updates emits, at the first update after "
+              "its start, rate x (whole time since the previous update) instead of rate x (time since its start): the liquidity "
+              "in range before the start is paid for time in which the incentive was not running and the record runs out early")
+# the requirements of TraceCLRewards that involve the ideal incentive accrual (the only ones StartClip can change)
+ORACLE_CHECKS = ("incentives within [accrued - dust, accrued + dust]", "incentives never accrued => exactly zero",
+                 "incentive twins equal, k-multiples proportional")
+
+
+def big(b):
+    v = 0
+    for x in reversed(b["m"]):
+        v = v * 10000 + x
+    return v * b["s"]
+
+
+def scan_incentives(trace):
+    """Non-vacuity counters for the incentive oracle (what the recorded histories exercise; no judgement)."""
+    c = {k: 0 for k in ("incentive:created-after-idle-time", "incentive:late-then-joiner", "incentive:future-start",
+                        "incentive:records-same-denom-different-start", "incentive:record-exhausted",
+                        "incentive:interval-without-active-liquidity", "incentive:interval-emitting",
+                        "incentive:interval-not-whole-seconds",
+                        "forfeit:collect-while-active", "forfeit:withdraw-while-active", "forfeit:add-while-active",
+                        "forfeit:while-no-liquidity-active", "twins:accruing", "multiples:accruing", "positions:never-accrued-open")}
+    E18 = 10 ** 18
+    prev, late_at = None, None
+    for ln in open(trace):
+        e = json.loads(ln)
+        if e["e"] != "op":
+            prev, late_at = e["st"], None
+            continue
+        st = e["st"]
+        inr = lambda s, p: p["lo"] <= s["tick"] < p["hi"]
+        if e["op"] == "incentive" and e["ok"]:
+            if e["args"]["start"] > st["t"]:
+                c["incentive:future-start"] += 1
+            if prev["lastUp"] < st["t"] and big(prev["liq"]) >= E18 and e["args"]["start"] == st["t"]:
+                c["incentive:created-after-idle-time"] += 1
+                late_at = st["t"]
+        if e["op"] == "create" and e["ok"] and late_at is not None and 0 < st["t"] - late_at <= 5000:
+            if any(p["id"] == e["res"]["id"] and inr(st, p) for p in st["pos"]):
+                c["incentive:late-then-joiner"] += 1
+            late_at = None
+        for d in (2, 3):
+            if len({r["start"] for r in st["recs"] if r["denom"] == d}) > 1:
+                c["incentive:records-same-denom-different-start"] += 1
+                break
+        gone = {r["id"] for r in prev["recs"]} - {r["id"] for r in st["recs"]}
+        c["incentive:record-exhausted"] += len(gone)
+        if st["t"] > prev["t"] and any(r["start"] < st["t"] for r in prev["recs"]):
+            c["incentive:interval-emitting" if big(prev["liq"]) >= E18 else "incentive:interval-without-active-liquidity"] += 1
+            if (st["t"] - prev["t"]) % 1000:
+                c["incentive:interval-not-whole-seconds"] += 1
+        if e["ok"] and e["op"] in ("collectInc", "withdraw", "add"):
+            pp = [p for p in prev["pos"] if p["id"] == e["args"]["id"]][0]
+            if any(big(pp["forf"][d]) > 0 for d in (2, 3)):
+                recv = [p for p in st["pos"] if inr(st, p) and not (e["op"] == "add" and p["id"] == e["res"]["id"])]
+                if sum(big(p["liq"]) for p in recv) >= E18:
+                    c["forfeit:%s-while-active" % {"collectInc": "collect"}.get(e["op"], e["op"])] += 1
+                else:
+                    c["forfeit:while-no-liquidity-active"] += 1
+        if e["op"] == "time":
+            ps = st["pos"]
+            for i in range(len(ps)):
+                for j in range(i + 1, len(ps)):
+                    p, q = ps[i], ps[j]
+                    if (p["lo"], p["hi"], p["join"]) == (q["lo"], q["hi"], q["join"]) and \
+                            any(big(p["inc"][d]) + big(p["forf"][d]) > 0 for d in (2, 3)):
+                        c["twins:accruing" if p["liq"] == q["liq"] else "multiples:accruing"] += 1
+            c["positions:never-accrued-open"] += sum(1 for p in ps if not inr(st, p) and all(big(p["inc"][d]) + big(p["forf"][d]) == 0 for d in (2, 3)))
+        prev = st
+    return c
+
+
+def validate(prop, cfg, trace_path, timeout, parallel=None):
+    """vlib.validate_trace plus the INC-STATS lines the trace specification prints per history."""
+    parallel = parallel or int(os.environ.get("VERIF_PARALLEL") or min(vlib.NCPU, 16))      # VERIF_PARALLEL: development aid
+    chunks = vlib.split_histories(trace_path, parallel)
+    main = "TraceCLRewards.tla"
+
+    def one(ch):
+        return ch, vlib.tlc(main, cfg, workers=1, timeout=timeout, env={"TRACE_FILE": ch[0]}, heap="3g", tag=prop + "-trace")
+
+    with concurrent.futures.ThreadPoolExecutor(max_workers=parallel) as ex:
+        results = list(ex.map(one, chunks))
+    gen = dist = nlines = 0
+    stats = []
+    for (p, first, n), r in results:
+        if r.error:
+            raise Infra("trace validation %s %s: %s" % (main, cfg, r.error))
+        gen, dist, nlines = gen + r.generated, dist + r.distinct, nlines + n
+        for pl in r.prints:
+            if pl.startswith('<<"INC-STATS", "'):
+                stats.append(json.loads(json.loads('"' + pl[len('<<"INC-STATS", "'):-3] + '"')))
+        if not r.ok:
+            if r.rejected_line is not None and not r.violated:
+                ln, what = r.rejected_line, "recorded step is not a step of the specification"
+            else:
+                ln, what = (r.last_l if r.last_l else r.depth), "property %s is false in a recorded state" % r.violated
+            lines = open(p).read().split("\n")
+            hstart = ln - 1
+            while hstart > 0 and '"e":"cfg"' not in lines[hstart]:
+                hstart -= 1
+            detail = {"spec": main, "cfg": cfg, "chunk_line": ln, "trace_line": first + ln - 1, "reason": what,
+                      "violated": r.violated, "failed_checks": r.failed_checks[-3:],
+                      "oracle_rows": [x for x in r.prints if "INC-BOUNDS" in x or "FEE-BOUNDS" in x][-3:],
+                      "offending_event": lines[ln - 1] if 0 < ln <= len(lines) else None,
+                      "history_cfg": lines[hstart][:600], "history_prefix": lines[hstart:ln][-400:], "tlc_output": r.out}
+            if r.failed_checks and not r.violated:
+                what += ": " + r.failed_checks[-1]
+            raise Violation(prop, what + (" (%s)" % r.violated if r.violated else ""), detail)
+    for p, _, _ in chunks:
+        try:
+            os.remove(p)
+        except OSError:
+            pass
+    tot = {}
+    for s in stats:
+        for k, v in s.items():
+            tot[k] = max(tot.get(k, 0), v) if k.startswith("worst") else tot.get(k, 0) + v
+    return gen, dist, nlines, tot
+
 
 def run(ctx):
     q = ctx.quick
@@ -47,14 +171,53 @@ def run(ctx):
     kinds, samples, n = clc.summarise(trace)
     clc.need(kinds, ["swap:ok", "collectFee:ok", "collectInc:ok", "incentive:ok", "time:ok", "add:ok", "withdraw:ok",
                      "transfer:ok", "swap:crossing-initialised-ticks"])
-    gen, dist, nlines = vlib.validate_trace("C08", "TraceCLRewards.tla", "TraceCLRewards.cfg", trace, timeout=3000)
-    log("validated %d recorded events of %d histories against the accrual oracle" % (nlines, nh))
+    inc = scan_incentives(trace)
+    # 1. the property: a record emits from its start time on (StartClip = TRUE)
+    t1 = time.time()
+    deviation = None
+    try:
+        gen, dist, nlines, st = validate("C08", "TraceCLRewards.cfg", trace, 3000)
+    except Violation as v:
+        if not any(name in " ".join(v.detail.get("failed_checks") or []) for name in ORACLE_CHECKS):
+            raise
+        deviation = v
+        for p in [p for p in os.listdir(os.path.dirname(trace)) if ".part" in p]:
+            os.remove(os.path.join(os.path.dirname(trace), p))
+    if deviation is not None:
+        # 2. the ideal accrual was missed somewhere.  Validate everything again with the one emission rule the code is
+        # known to deviate by (SIG_START: the first update after a record's start emits for the whole time since the
+        # previous update, never for time before the record was created).  Whatever is rejected under that rule too is a
+        # violation of its own; if nothing is, the known deviation is the explanation and is reported as that finding.
+        log("ideal incentive accrual missed (%s; trace line %s): re-validating with the known emission rule"
+            % ((deviation.detail.get("failed_checks") or ["?"])[-1], deviation.detail.get("trace_line")))
+        gen, dist, nlines, st = validate("C08", "TraceCLRewardsKnown.cfg", trace, 3000)
+        if st.get("beforeStart", 0) == 0:
+            raise deviation      # cannot happen: without such an emission both rules are the same formula
+        rows = deviation.detail.get("oracle_rows") or []
+        ctx.finding(SIG_START, WHAT_START + " (%d such emissions in this run; first rejected: trace line %s, %s)"
+                    % (st["beforeStart"], deviation.detail.get("trace_line"), rows[-1][:300] if rows else deviation.what),
+                    dict(deviation.detail, leg="trace", emissions_before_start=st["beforeStart"]))
+    # non-vacuity (after the validation: a tree that is rejected is a violation whatever it left unexercised)
+    clc.need(inc, sorted(inc))
+    for k in ("intervals", "accruals", "records", "settlements", "redistributions", "forfeitsPaidIdle", "judged"):
+        if st.get(k, 0) == 0:
+            raise Infra("the incentive oracle judged no %s: the driver does not exercise the property" % k)
+    log("validated %d recorded events of %d histories against the accrual oracles (%.0fs); incentives: %d intervals, %d record "
+        "emissions of %d records, %d settlements, %d forfeits re-distributed, %d paid with no liquidity active, %d (position, denom) "
+        "judgements; worst slack/dust %.3f (%.3f where dust >= 10 tokens), worst slack %.3f tokens"
+        % (nlines, nh, time.time() - t1, st["intervals"], st["accruals"], st["records"], st["settlements"], st["redistributions"],
+           st["forfeitsPaidIdle"], st["judged"], st["worstMilli"] / 1000, st["worstBigMilli"] / 1000, st["worstAbsMilli"] / 1000))
     vlib.write_evidence("C08", ctx.tier, ctx.seed, "model_checking", {
         "states": r.distinct + dist, "transitions": r.generated + gen, "traces_validated_against_impl": nh,
         "mc_states": r.distinct, "recorded_events": nlines, "event_kinds": kinds, "samples": samples,
+        "incentive_oracle": st, "incentive_histories_exercise": inc, "known_finding_hits": dict(ctx.known_hit),
+        "incentive_dust_calibration": {"worst_slack_over_dust": st["worstMilli"] / 1000,
+                                       "worst_slack_over_dust_where_dust_ge_10": st["worstBigMilli"] / 1000,
+                                       "worst_slack_tokens": st["worstAbsMilli"] / 1000, "real_above_ideal": "never (upper allowance 1e-18 per record and update)"},
         "checker_cmd": "bin/check C08 --tier " + ctx.tier}, time.time() - ctx.t0,
-        ["TLC; BigNum java override; curve walker of C03", "harness projection (claimable queries, reward accounts)",
-         "tolerances: relative 1e-12, 2 units per touching event, liq x accumulator ulp per accrual step"])
+        ["TLC; BigNum java override; curve walker of C03", "harness projection (claimable queries, reward accounts, user balances)",
+         "spread rewards: relative 1e-12, 2 units per touching event, liq x accumulator ulp per accrual step",
+         "incentives: dust = (liq x ulp + 1e-18) per live record and accumulator update + 1 per settlement/query + re-distribution share of the forfeiter's dust"])
 
 
 def evidence_on_violation(ctx, v):
